@@ -402,6 +402,61 @@ def packWithPrefix (arr : Bytes) (len : Nat) (msg : Bytes) : Bytes × Bytes :=
 def packUDP (arr : Bytes) (len : Nat) (msg : Bytes) : Bytes × Bytes :=
   ((packBuffer arr len msg).take msg.length, packBuffer arr len msg)
 
+/-! ## Request side of an upstream exchange: `packReq`, the write, and the retry
+
+`exchangeNet` packs the request into the very buffer the reply is read into afterwards
+(`packReq`), writes `buf[:bufReqLen]` to the connection and, when the attempt fails with a network
+error, writes again on a new connection.  `dns.Msg.PackBuffer(b)` packs in place only when `b` has
+`spare` bytes to spare (miekg: `len(b) ≥ Len()+1`, i.e. `spare = 1`); otherwise it returns a newly
+allocated slice and leaves `b` untouched.  `spare` stays a parameter: the theorems hold for every
+value.  `packed` is `req.Pack()` (trusted base: `Len()` is the packed length). -/
+
+/-- The array `b` after `PackBuffer(b)`. -/
+def packBufferInto (spare : Nat) (b packed : Bytes) : Bytes :=
+  if packed.length + spare ≤ b.length then overwrite b packed else b
+
+/-- What the upstream has to receive: the packed request, over TCP after its 2-byte length. -/
+def frameReq (tcp : Bool) (packed : Bytes) : Bytes :=
+  if tcp then be16Bytes packed.length ++ packed else packed
+
+/-- `packReq` (after the fix): guard `reqLen > len(buf)[-2]`, `packed := PackBuffer(msgBuf)`,
+`n = copy(msgBuf, packed)`, length prefix.  Result: `bufReqLen` and the buffer afterwards; `none`:
+`dns.ErrBuf`. -/
+def packReq (spare : Nat) (tcp : Bool) (buf packed : Bytes) : Option (Nat × Bytes) :=
+  if buf.length < packed.length + (if tcp then 2 else 0) then none
+  else
+    some (packed.length + (if tcp then 2 else 0),
+      (if tcp then be16Bytes packed.length else []) ++
+        overwrite (packBufferInto spare (buf.drop (if tcp then 2 else 0)) packed) packed)
+
+/-- `packReq` before the fix: the slice `PackBuffer` returns is dropped (`_, err = …`). -/
+def packReqOld (spare : Nat) (tcp : Bool) (buf packed : Bytes) : Option (Nat × Bytes) :=
+  if buf.length < packed.length + (if tcp then 2 else 0) then none
+  else
+    some (packed.length + (if tcp then 2 else 0),
+      (if tcp then be16Bytes packed.length else []) ++
+        packBufferInto spare (buf.drop (if tcp then 2 else 0)) packed)
+
+/-- `conn.Write(buf[:bufReqLen])`. -/
+def sentReq (r : Nat × Bytes) : Bytes := r.2.take r.1
+
+/-- Both writes of an exchange whose first attempt broke after `part` bytes of a reply had been
+read into the buffer (`conn.Read(buf)` / `io.ReadFull(conn, buf[:length])` write at offset 0):
+after the fix the request is packed again before the second write. -/
+def retryWrites (spare : Nat) (tcp : Bool) (buf packed part : Bytes) : Option (Bytes × Bytes) :=
+  match packReq spare tcp buf packed with
+  | none => none
+  | some r =>
+    match packReq spare tcp (overwrite r.2 part) packed with
+    | none => none
+    | some r2 => some (sentReq r, sentReq r2)
+
+/-- Before the fix the second attempt wrote `buf[:bufReqLen]` as the failed read left it. -/
+def retryWritesOld (spare : Nat) (tcp : Bool) (buf packed part : Bytes) : Option (Bytes × Bytes) :=
+  match packReqOld spare tcp buf packed with
+  | none => none
+  | some r => some (sentReq r, (overwrite r.2 part).take r.1)
+
 /-! ## A tiny DNS reader, used only to exhibit witnesses -/
 
 /-- QDCOUNT of a message. -/
